@@ -3,8 +3,8 @@
    begin  : graph (n, adj), the node array of random_decomp / of the annealer's initial tree, cache
    move   : one call of swap_random_leaves / random_local_swap / move_random_subtree; FULL node array
             and FULL cache after the call
-   width  : rankwidth() and rankwidth_score() (and the same on a copy with an emptied cache); cache after
-   anneal : RankwidthAnnealer::run from the current tree; the returned tree, its cache, its width
+   width  : rankwidth() and rankwidth_score() (and the same on a copy with an emptied cache); tree, cache after
+   anneal : RankwidthAnnealer::run from the current tree (init_nodes); the returned tree, its cache, its width
    L2 (violations), all evaluated by TLC on the logged values with the spec's definitions:
      NoPanic / NoHang   no call panics (or fails to return within the harness watchdog)
      ValidTree          every logged array is a cubic tree whose leaves biject with the vertices
@@ -70,14 +70,17 @@ Step(e) ==
             /\ stats' = [stats EXCEPT !.panics = @ + 1]
             /\ UNCHANGED <<gr, nodes, ranks, drift>>
          ELSE
+         \* e.nodes = the tree the answers are about (logged so that the event can be replayed on its own)
          LET rk == CacheOf(e.cache)
-             wi == WellIndexed(nodes)
-         IN /\ ranks' = rk /\ UNCHANGED <<gr, nodes, live>>
-            /\ viol' = (IF wi THEN Check1(/\ e.rankwidth = TrueWidth(gr, nodes) /\ e.score = TrueScore(gr, nodes)
+             wi == WellIndexed(e.nodes)
+         IN /\ nodes' = e.nodes /\ ranks' = rk /\ UNCHANGED <<gr, live>>
+            /\ viol' = (IF wi THEN Check1(/\ e.rankwidth = TrueWidth(gr, e.nodes) /\ e.score = TrueScore(gr, e.nodes)
                                           /\ e.fresh_rankwidth = e.rankwidth /\ e.fresh_score = e.score, "WidthOK")
-                                   \o Check1(CacheCoherent(gr, nodes, rk), "CacheCoherent")
+                                   \o Check1(CacheCoherent(gr, e.nodes, rk), "CacheCoherent")
                         ELSE <<>>) \o viol
-            /\ drift' = IF live /\ wi /\ rk # ComputeRanks(gr, nodes, ranks) THEN Append(drift, <<l, "ComputeRefines">>) ELSE drift
+            /\ drift' = (IF live /\ e.nodes # nodes THEN <<<<l, "QueryKeepsTree">>>> ELSE <<>>)
+                        \o (IF live /\ wi /\ rk # ComputeRanks(gr, e.nodes, ranks) THEN <<<<l, "ComputeRefines">>>> ELSE <<>>)
+                        \o drift
             /\ stats' = [stats EXCEPT !.widths = @ + 1, !.nontrivial = @ + (IF rk # ranks THEN 1 ELSE 0)]
     [] e.k = "anneal" ->
          IF e.res # "ok" THEN
@@ -85,17 +88,20 @@ Step(e) ==
             /\ stats' = [stats EXCEPT !.anneals = @ + 1, !.panics = @ + 1]
             /\ UNCHANGED <<gr, nodes, ranks, drift>>
          ELSE
+         \* e.init_nodes = the annealer's starting tree (= the current tree; logged for replay)
          LET rk == CacheOf(e.cache)
-             wi == WellIndexed(e.nodes) /\ WellIndexed(nodes)
+             wi == WellIndexed(e.nodes) /\ WellIndexed(e.init_nodes)
          IN /\ nodes' = e.nodes /\ ranks' = rk /\ UNCHANGED <<gr, live>>
             /\ viol' = Check1(ValidTree(gr, e.nodes), "AnnealValid")
-                       \o (IF wi THEN Check1(TrueWidth(gr, e.nodes) <= TrueWidth(gr, nodes), "AnnealNoWorse")
+                       \o (IF wi THEN Check1(TrueWidth(gr, e.nodes) <= TrueWidth(gr, e.init_nodes), "AnnealNoWorse")
                                       \o Check1(CacheCoherent(gr, e.nodes, rk), "CacheCoherent")
                                       \o Check1(/\ e.final_width = TrueWidth(gr, e.nodes) /\ e.final_score = TrueScore(gr, e.nodes)
-                                                /\ e.init_width = TrueWidth(gr, nodes), "WidthOK")
+                                                /\ e.init_width = TrueWidth(gr, e.init_nodes), "WidthOK")
                            ELSE <<>>)
                        \o viol
-            /\ drift' = IF e.valid # ValidTree(gr, e.nodes) THEN Append(drift, <<l, "IsValidForGraph">>) ELSE drift
+            /\ drift' = (IF live /\ e.init_nodes # nodes THEN <<<<l, "AnnealStartsFromTree">>>> ELSE <<>>)
+                        \o (IF e.valid # ValidTree(gr, e.nodes) THEN <<<<l, "IsValidForGraph">>>> ELSE <<>>)
+                        \o drift
             /\ stats' = [stats EXCEPT !.anneals = @ + 1, !.nontrivial = @ + (IF e.params.iters > 0 THEN 1 ELSE 0)]
 Next == \/ /\ l <= NLines /\ Step(Rec[l]) /\ l' = l + 1
         \/ /\ l = NLines + 1 /\ Report(l, viol, drift, stats) /\ l' = l + 1
